@@ -14,7 +14,7 @@ from mc.harness import AffineEnsemble, TableEvaluator, close, make_manager, make
 
 PROPERTY = "C02"
 RULE = (
-    "E1 product enumeration through EnsembleEvaluator.calculate (combined and split paths): V x variable mask x R x "
+    "E1 product enumeration through EnsembleEvaluator.calculate (combined and split paths, and a gradient-only request after functions at a nearby point or at a point that differs in a fixed variable): V x variable mask x R x "
     "realization weights x P x sampler (deterministic designs: axes, table, per-realization rotated, rank-deficient; "
     "built-in norm/uniform/sobol/lhs with two seeds, and two built-in samplers assigned per variable; shared or not) x affine ensemble (distinct / identical realizations) x "
     "estimator map x merge on/off x failure pattern (none, one perturbation, one perturbation with min_success=P, one "
@@ -175,14 +175,18 @@ def judge(case: dict[str, Any]) -> Judgement:
         dead[fr] = True
     alive_certain = bool(np.any((cw > 0) & ~dead)) and not case["filter"]
 
-    for split in (False, True, "near"):
+    for split in (False, True, "near", "fixed-moved"):
+        if split == "fixed-moved" and bool(np.all(free)):
+            continue
         evaluator = TableEvaluator(ens_fn, 2, 1, fail=fail)
         ens = EnsembleEvaluator(config, transforms, evaluator, manager)
         try:
-            if split == "near":
-                # functions at a point 4e-6 (relative) away, then a gradient-only request at x: the gradient must be
-                # the gradient at x, computed with function values of x (not the ones kept from the nearby point)
-                ens.calculate(x * (1.0 + 4e-6), compute_functions=True, compute_gradients=False)
+            if split in ("near", "fixed-moved"):
+                # functions at a point 4e-6 (relative) away - or at a point that differs in a FIXED variable only, as
+                # after a nested optimization moved it - then a gradient-only request at x: the gradient must be the
+                # gradient at x, computed with function values of x (not the ones kept from the other point)
+                other = x * (1.0 + 4e-6) if split == "near" else np.where(free, x, x + 0.5)
+                ens.calculate(other, compute_functions=True, compute_gradients=False)
                 res = ens.calculate(x, compute_functions=False, compute_gradients=True)
                 transitions += 2
                 gres = next(item for item in res if isinstance(item, GradientResults))
@@ -212,7 +216,7 @@ def judge(case: dict[str, Any]) -> Judgement:
         if gres.gradients is None:
             outcome.append("no-gradients")
             continue
-        tag = "near" if split == "near" else ("split" if split else "combined")
+        tag = split if isinstance(split, str) else ("split" if split else "combined")
         # ---- reference, from what was reported ---------------------------------
         if fres is None:
             fvals = near_f
